@@ -184,3 +184,205 @@ def replay(prop_id, path):
     print("impl:", *impl.get(cid, []), sep="\n  ")
     print("spec:", *spec.get(cid, []), sep="\n  ")
     return 1 if impl.get(cid) != spec.get(cid) else 0
+
+
+# ----------------------------------------------------------------------------- hand-modelled properties
+
+def blocks_of(lines):
+    blocks, cur = {}, None
+    for l in lines:
+        if l.startswith("case "):
+            cur = l[5:]
+            blocks[cur] = []
+        blocks[cur].append(l)
+    return blocks
+
+
+def project_generic(res_lines, keep_dump=("d area",)):
+    """property-relevant observables: success/failure, returned values, selected dump lines"""
+    out = []
+    for l in res_lines:
+        if l.startswith("r err"):
+            out.append("r err")
+        elif l.startswith("d "):
+            if l.startswith(keep_dump):
+                out.append(l)
+        else:
+            out.append(l)
+    return out
+
+
+def hand_check(prop_id, lines, hist, rule, nontrivial, project, impl_checks=None, tag=None):
+    """tie (impl<->model, exact) + property verdict (impl vs model after projection, plus direct
+    checks on the implementation's own results)"""
+    res = dict(rule=rule, histogram=hist)
+    blocks = blocks_of(lines)
+    ncases, bad = tie_run(lines, tag or prop_id)
+    res["cases"] = ncases
+    res["distinct"] = len(set(tuple(b[1:]) for b in blocks.values() if nontrivial(b)))
+    ids = list(blocks)
+    res["samples"] = [blocks[i] for i in ids[:2]]
+    broken, violations = [], []
+    if bad:
+        prof, cid, first = bad[0]
+        broken.append(("correspondence", "impl<->model differ on %d cases, e.g. %s (%s): impl `%s` model `%s`" % (
+            len(bad), cid, prof, first[0], first[1])))
+    # verdict: run both again in release profile and compare the projections
+    hs = harnesses()
+    impl, model = axv.run_pair(hs["release"], lines, False, False, (tag or prop_id) + "-verdict")
+    nproj = 0
+    for cid in impl:
+        pi, pm = project(impl[cid]), project(model.get(cid, []))
+        if pi != pm:
+            nproj += 1
+            if len(violations) < 3:
+                first = next(((x, y) for x, y in zip(pi, pm) if x != y), ("len %d" % len(pi), "len %d" % len(pm)))
+                violations.append(("observable behaviour differs from the proved model: impl `%s` model `%s`" % (
+                    first[0][:160], first[1][:160]), dict(case=blocks[cid], impl=impl[cid], model=model.get(cid))))
+        if impl_checks:
+            msg = impl_checks(blocks[cid], impl[cid])
+            if msg and len(violations) < 3:
+                violations.append((msg, dict(case=blocks[cid], impl=impl[cid])))
+                nproj += 1
+    res["extra"] = dict(verdict_cases=len(impl), property_disagreements=nproj)
+    res.update(broken=broken, violations=violations, known=[])
+    return res
+
+
+def parse_areas(res_lines):
+    """list of area tuple lists, one per dump"""
+    dumps, cur = [], None
+    for l in res_lines:
+        if l.startswith("d regs"):
+            cur = []
+            dumps.append(cur)
+        elif l.startswith("d area") and cur is not None:
+            t = l.split()
+            cur.append((int(t[2], 16), int(t[3], 16), int(t[4], 16), int(t[5], 16)))
+    return dumps
+
+
+def check_disjoint(block, res_lines):
+    for areas in parse_areas(res_lines):
+        for i in range(len(areas)):
+            for j in range(i + 1, len(areas)):
+                a, b = areas[i], areas[j]
+                if a[0] < b[0] + b[1] and b[0] < a[0] + a[1]:
+                    return "areas overlap: [%x,+%x) and [%x,+%x)" % (a[0], a[1], b[0], b[1])
+            if areas[i][1] != areas[i][2]:
+                return "area length %x differs from its data length %x" % (areas[i][1], areas[i][2])
+    for l in res_lines:
+        if l.startswith("r panic") or l.startswith("r harness-panic"):
+            return "implementation panicked: " + l
+    return None
+
+
+def gen_mem_histories(seed, n, focus="mixed"):
+    rng = random.Random(seed * 104729 + 11)
+    lines, hist = [], {}
+
+    def h(k):
+        hist[k] = hist.get(k, 0) + 1
+
+    for k in range(n):
+        cid = "mem%d" % k
+        lines.append("case " + cid)
+        code_start = rng.choice([0x1000, 0x2000, 0x10000, 0x400000])
+        lines.append("new 90c3 %x %x" % (code_start, code_start))
+        lines.append("allregs " + " ".join("%x" % rng.randrange(1 << 64) for _ in range(16)))
+        lines.append("allxmm " + " ".join("0" for _ in range(16)))
+        areas = [(code_start, 2)]
+        nops = rng.randrange(3, 16)
+        for _ in range(nops):
+            r = rng.random()
+            def near():
+                # an address near an existing area edge, or an extreme one
+                if areas and rng.random() < 0.8:
+                    st, ln = rng.choice(areas)
+                    return (st + rng.choice([-2, -1, 0, 1, ln - 2, ln - 1, ln, ln + 1, ln // 2])) & ((1 << 64) - 1)
+                return rng.choice([0, 1, 0xfff, 0x1000, (1 << 64) - 1, (1 << 64) - 8, (1 << 63), 0x7fffffffffffffff,
+                                   rng.randrange(1 << 64), rng.randrange(1 << 16)])
+            if r < 0.16:
+                st = near() if rng.random() < 0.6 else rng.choice([0x3000, 0x5000, 0x8000, 0x20000]) + rng.randrange(64)
+                ln = rng.choice([0, 1, 2, 8, 16, 33, 64, 200])
+                data = bytes(rng.randrange(256) for _ in range(ln))
+                lines.append("init %x %s" % (st, data.hex() or "-"))
+                areas.append((st, ln)); h("init")
+            elif r < 0.26:
+                st = near() if rng.random() < 0.6 else rng.choice([0x3000, 0x5000, 0x8000, 0x20000]) + rng.randrange(64)
+                ln = rng.choice([0, 1, 8, 16, 64, 300, 0x1000])
+                lines.append("zero %x %x" % (st, ln))
+                areas.append((st, ln)); h("zero")
+            elif r < 0.32:
+                ln = rng.choice([0, 0, 1, 7, 16, 64, 0x800, 0x1000, 0x2000])
+                lines.append("zeroany %x" % ln); h("zeroany")
+                areas.append((0x1000, ln))
+            elif r < 0.37:
+                ln = rng.choice([0, 1, 5, 16, 100])
+                lines.append("initany %s" % (bytes(rng.randrange(256) for _ in range(ln)).hex() or "-")); h("initany")
+            elif r < 0.44:
+                st = rng.choice(areas)[0] if rng.random() < 0.8 else near()
+                lines.append("prot %x %x" % (st, rng.choice([0, 1, 2, 3, 4, 5, 6, 7, 7, 3, 8, 0xff]))); h("prot")
+            elif r < 0.52:
+                st = rng.choice(areas)[0] if rng.random() < 0.85 else near()
+                lines.append("resize %x %x" % (st, rng.choice([0, 1, 2, 8, 16, 64, 100, 0x1000, 0x10000, (1 << 64) - 1]))); h("resize")
+            elif r < 0.56:
+                lines.append("stack %x" % rng.choice([0, 8, 16, 0x100, 0x1000])); h("stack")
+            elif r < 0.72:
+                a = near()
+                ln = rng.choice([0, 1, 2, 3, 4, 8, 16, 17, 64, (1 << 64) - 1, (1 << 63), rng.randrange(1 << 64)])
+                lines.append("memr %x %x" % (a, ln)); h("memr")
+            elif r < 0.86:
+                a = near()
+                ln = rng.choice([0, 1, 2, 3, 4, 8, 16, 17, 40])
+                lines.append("memw %x %s" % (a, bytes(rng.randrange(256) for _ in range(ln)).hex() or "-")); h("memw")
+            elif r < 0.93:
+                nb = rng.choice([1, 2, 4, 8, 16])
+                lines.append("memrn %d %x" % (nb, near())); h("memrn")
+            else:
+                nb = rng.choice([1, 2, 4, 8, 16])
+                v = rng.randrange(1 << (8 * nb)) if rng.random() < 0.8 else rng.randrange(1 << 64)
+                if nb == 16:
+                    v = rng.randrange(1 << 128)
+                lines.append("memwn %d %x %x" % (nb, near(), v)); h("memwn")
+        lines.append("dump")
+        lines.append("end")
+    return lines, hist
+
+
+def _mem_prop(prop_id, tier, seed):
+    n = 800 if tier == "quick" else 30000
+    lines, hist = gen_mem_histories(seed + {"C08": 0, "C09": 1, "C10": 2}[prop_id], n)
+    return hand_check(
+        prop_id, lines, hist,
+        rule="random histories of the memory API (init/zero/anywhere/prot/resize/stack/read/write/typed accessors) "
+             "with addresses at area edges +-2, near 2^64 and extreme lengths, all 8 permission masks plus invalid "
+             "ones; non-trivial = at least one successful write or layout change; distinct = distinct op sequences",
+        nontrivial=lambda b: any(x.startswith(("memw", "init", "zero", "resize")) for x in b),
+        project=lambda r: project_generic(r, ("d area", "d regs")),
+        impl_checks=check_disjoint)
+
+
+@prop("C08")
+def c08(tier, seed, **kw):
+    return _mem_prop("C08", tier, seed)
+
+
+@prop("C09")
+def c09(tier, seed, **kw):
+    res = _mem_prop("C09", tier, seed)
+    # every instruction form reaches memory only through the checked accessors
+    import glob, re
+    bad = []
+    for f in glob.glob(os.path.join(axv.GEN, "*.v")):
+        txt = open(f).read()
+        if re.search(r"\b(set_mem|a_data|replace_nth|splice)\b", txt):
+            bad.append(os.path.basename(f))
+    if bad:
+        res["broken"].append(("generated-model-bypasses-accessors", ",".join(bad)))
+    return res
+
+
+@prop("C10")
+def c10(tier, seed, **kw):
+    return _mem_prop("C10", tier, seed)
